@@ -293,6 +293,21 @@ func VerifHarness_C18_session() {
 		verifrt.Sig("connection 1", "early-request")
 		verifrt.Assert(c18KindsEq(c18Kinds(w), MessageTypeRegister), "C18.session.request-not-written-before-handshake")
 	}
+	// the application declares ready although this connection has not been accepted (a Ready meant
+	// for an earlier connection that arrives late, or an impatient application): that must not open
+	// the connection for requests
+	if verifrt.Choose("ready-declared-before-the-accept", 2) == 1 {
+		perr := c.Ready(ctx, c.NextMessageID())
+		verifrt.Note("Ready before the accept: %v", perr)
+		for _, k := range c18Kinds(s.written()) {
+			verifrt.Sig("connection 1", "ready-before-accept")
+			verifrt.Assert(IsHandshakeType(k), "C18.session.no-request-written-to-a-connection-that-is-not-accepted")
+		}
+		verifrt.Reach("C18.session.ready-before-accept")
+		if perr == nil {
+			return // (the rest of the script assumes a connection that still waits for its Ready)
+		}
+	}
 	// a server that has not (yet) proved itself pushes data: nothing may reach the handlers
 	if verifrt.Choose("data-before-accept", 2) == 1 {
 		s.send(&Tx{ID: 1, Tx: wire.NewMsgTx(1)})
